@@ -10,6 +10,7 @@ CONSTANTS
  MaxAnchors = 1
  Mode = "conv"
  Dump = FALSE
+ DiffUsesWholeNumbers = TRUE
 INIT TInit
 NEXT TNext
 CHECK_DEADLOCK FALSE
